@@ -63,6 +63,12 @@ CLAIMED = {
         "Machine-checked Lean 4 theorems over a model of value semantics: frozen mappings with the same items are equal and hash equally whatever the insertion order; attrs-generated equality implies equal hashes because both range over the same eq fields (flags regenerated from the live classes); in a store model of object identity, an object built by a COPYING constructor observes the same items after any sequence of mutations of containers the caller can reach, whereas an aliasing constructor does not. PARTIAL: 'assigning or deleting an attribute or item raises' is a fact about CPython/attrs that no model of ours can exhibit; it is carried by the run-time tie, which is exhaustive in the finite dimensions: every class (18 model classes, 3 SWHID classes, ImmutableDict) x every attrs field x setattr/delattr/mutating methods, and later mutation of every container passed to a constructor or inside a from_dict argument (top level and nested), observing dictionary form, id, recomputed hash, equality and hash before and after.",
         NOTE + " CPython object protocol and attrs are trusted; hash coherence is claimed where hash() is defined.",
     ),
+    "C12": (
+        "§6 C12",
+        "Lean 4 round-trip theorems for all 18 classes over a fixed plain value universe (fromDict(toDict o) = o incl. id; decoded objects are valid; dictionary form stable), legacy-encoding equivalences, field lists tied to the regenerated attrs tables + model/implementation correspondence with a type-directed generator + direct oracle",
+        "Machine-checked Lean 4 theorems over an executable model of to_dict/from_dict of the 18 model classes on a value universe with no constructor for model objects, enums or SWHIDs (so 'plain values only' holds by typing): for every valid object of every class fromDict(toDict o) = ok o (structural equality on every field, id included) and the dictionary form is stable; every decoded object satisfies the constructor's validity predicate; the legacy encodings (numeric offset with negative-UTC flag — via C16's offset round trip —, timestamp as int, person without fullname, extra headers inside metadata, old-style metadata target) decode to the same object as the current encoding; each Lean structure's field list equals the regenerated attrs field table (adding/removing a field breaks an obligation) and the metadata context rules equal the table probed from the live validators. The correspondence feeds generated dictionaries of all classes (every optional field present/absent, explicit ids, context subsets, legacy forms) to model and implementation and compares the dictionary after one and two round trips, with real ids; the oracle checks equality, ids, plainness (type walk) and that from_dict leaves its argument untouched (deep copy).",
+        NOTE + " attrs converters/validators are below the model; id functions are uninterpreted in the theorems.",
+    ),
     "C13": (
         "§6 C13",
         "Lean 4 theorems: two-pass filtering = reading the physically pruned tree (named, empty, composed; any emptiness-only filter); export closed/unique/checked without assuming an injective hash; size limit changes status only + correspondence and pruned-copy oracle on materialised trees (glob patterns by oracle only)",
